@@ -28,14 +28,13 @@
 namespace c19 {
 
 // ---------------------------------------------------------------------------------------------------------------
-// Known defects of the pinned tree (see /verif/proposed_fixes/C19-*.diff).  Their input classes are excluded by construction
-// (and counted) until C19_INCLUDE_KNOWN names them ("overrun", "nullcpy", or "all"), or a regression case forces them:
-//   overrun : a chunk whose declared length overruns the end of the archive by 1..3 bytes is accepted (next_chunk_size bound)
-//   nullcpy : loading an EMPTY std::vector<POD> calls memcpy(NULL, src, 0) in archive::read_chunk (UBSan: nonnull argument)
-struct Known { bool overrun, nullcpy; };
+// Defect found by this check in the pinned tree (fixed in /repo by 867fed3, patch: /verif/proposed_fixes/C19-next-chunk-size-bound.diff):
+// a chunk whose declared length overruns the end of the archive by 1..3 bytes was accepted (archive::next_chunk_size compared ptr_+size
+// instead of ptr_+4+size).  While such a defect is listed as status "known", its input class is excluded by construction (and counted);
+// props/c19.py sets C19_INCLUDE_KNOWN=overrun once known_findings.json lists it as fixed, and regression cases force it.
+struct Known { bool overrun; };
 inline Known &known_included() {
-    static Known k = [] { std::string v = vr::env("C19_INCLUDE_KNOWN", ""); Known r; bool all = v == "1" || v == "all";
-                          r.overrun = all || v.find("overrun") != std::string::npos; r.nullcpy = all || v.find("nullcpy") != std::string::npos; return r; }();
+    static Known k = [] { std::string v = vr::env("C19_INCLUDE_KNOWN", ""); Known r; r.overrun = v == "1" || v == "all" || v.find("overrun") != std::string::npos; return r; }();
     return k;
 }
 
@@ -86,7 +85,6 @@ inline const char *why_name(Why w) {
 struct Rd {
     std::string const &buf; size_t pos = 0; Why why = W_NONE; size_t fail_pos = 0;
     bool near_edge = false;     // some header's length lies within +-4 of the bytes that remain after it
-    bool pod_empty = false;     // an in-bounds chunk of length 0 sits where a std::vector<POD> is expected (known class "nullcpy")
     explicit Rd(std::string const &b) : buf(b) {}
     bool fail(Why w) { if (why == W_NONE) { why = w; fail_pos = pos; } return false; }
     bool chunk(const char *&p, size_t &n) {
@@ -237,7 +235,6 @@ template <class V> struct U<std::vector<V>, typename std::enable_if<std::is_arit
     typedef std::vector<V> C;
     static void make(C &c, Src &s, int depth) {
         c.clear(); size_t n = s.clen(depth);
-        if (n == 0 && !known_included().nullcpy) { VR.excl("empty-pod-vector(memcpy-null)"); n = 1; }
         for (size_t k = 0; k < n; k++) { V e; U<V>::make(e, s, depth + 1); c.push_back(e); }
     }
     static void enc(C const &c, std::string &o) { put_chunk(o, c.empty() ? 0 : &c[0], c.size() * sizeof(V)); }
@@ -245,7 +242,6 @@ template <class V> struct U<std::vector<V>, typename std::enable_if<std::is_arit
         const char *p; size_t n; size_t at = r.pos;
         if (!r.chunk(p, n)) return false;
         if (n % sizeof(V)) { r.pos = at; return r.fail(W_SIZE_MISMATCH); }
-        if (n == 0) r.pod_empty = true;
         c.assign(n / sizeof(V), V());
         if (n) memcpy(&c[0], p, n);
         return true;
@@ -507,7 +503,6 @@ template <class T> Res check_load(std::string const &D, const char *tname, std::
     if (nontrivial) *nontrivial = rd.near_edge;
     if (rd.near_edge) st.near_edge++;
     if (!rok && rd.why == W_OVERRUN_1_3 && !known_included().overrun) { st.excluded++; VR.excl("chunk-overruns-end-by-1..3"); return good(); }
-    if (rd.pod_empty && !known_included().nullcpy) { st.excluded++; VR.excl("empty-pod-vector(memcpy-null)"); return good(); }
     T cv; cppcms::archive a; a.str(D);
     std::string what;
     LoadRes lr = cppcms_load(a, cv, &what);
